@@ -1,0 +1,11 @@
+//go:build verif
+
+// Contracts for object-key freshness (property C33). Comment-only; read by /verif (govc).
+
+package vgigcs
+
+// Upload: the object key is prefix + a fresh UUID's text + the extension.
+//
+//@ func (*GCSStorage).Upload
+//@   property C33
+//@   at call (*storage.BucketHandle).Object assert [key] freshKey(arg1)
